@@ -75,6 +75,15 @@ pub struct QView {
     pub alpn: String,
 }
 
+/// 1-RTT packets s2n-quic could not authenticate (nothing on the path corrupts datagrams)
+#[derive(Clone, Debug, Default)]
+pub struct DecryptFailed {
+    pub total: u64,
+    /// the reconstructed packet number was larger than anything processed so far
+    pub decoded_ahead_of_rx: u64,
+    pub max_ahead: u64,
+}
+
 /// s2n-quic's view (event subscriber + application API)
 #[derive(Clone, Debug, Default)]
 pub struct SView {
@@ -93,6 +102,9 @@ pub struct SView {
     pub frames_sent: BTreeMap<&'static str, u64>,
     pub frames_recv: BTreeMap<&'static str, u64>,
     pub mtu: u16,
+    pub largest_rx_1rtt: u64,
+    pub largest_ack_sent_1rtt: u64,
+    pub decrypt_failed: DecryptFailed,
     pub peer_tp: Option<String>,
     pub app_errors: BTreeMap<String, u64>,
     pub streams_opened: u64,
